@@ -252,7 +252,7 @@ Theorem decoded_normalized_hash o c m src dest fee h :
   msg_hash H true m = Ok h /\ repr_hash H (canonical_cell dest (m_body m)) = Ok h /\
   body_from c (m_body m) /\ addr_wf dest.
 Proof.
-  intros Hm Hb E Ei Hh. unfold decode_message, decode_message_gen in E. inv_ok E.
+  intros Hm Hb E Ei Hh. unfold decode_message, decode_message_gen, decode_message_body in E. inv_ok E.
   injection E as <-. cbn [m_info m_body] in *.
   match goal with X : parse_message _ _ = Ok _ |- _ =>
     destruct (parse_message_facts _ _ _ _ _ _ X) as (Hf & Hd) end.
